@@ -296,6 +296,15 @@ func c04runCell(c *Ctx, rec *mon.Recorder, cell c04cell, idx int) {
 	prot[int64(4)] = []byte("kid")
 	headers.Protected = prot
 	headers.Unprotected = cose.UnprotectedHeader{}
+	// an alg parameter in the unprotected bucket is not the protected alg: it must not change anything
+	switch idx % 4 {
+	case 1:
+		headers.Unprotected[int64(1)] = cell.keyAlg
+	case 2:
+		headers.Unprotected[int64(1)] = cell.diff
+	case 3:
+		headers.Unprotected[gen.SpellIntAs(1, cell.spell)] = int64(cell.keyAlg)
+	}
 	payload := []byte("payload")
 	wireProt := func() *Node { // protected map as the reference writes it
 		m := refcbor.NMap(refcbor.NInt(4), refcbor.NBstr([]byte("kid")))
@@ -404,6 +413,9 @@ func c04runCell(c *Ctx, rec *mon.Recorder, cell c04cell, idx int) {
 		ran := false
 		hcopy := func() cose.Headers {
 			h := cose.Headers{RawProtected: headers.RawProtected, Unprotected: cose.UnprotectedHeader{}}
+			for k, v := range headers.Unprotected {
+				h.Unprotected[k] = v
+			}
 			h.Protected = cose.ProtectedHeader{}
 			for k, v := range headers.Protected {
 				h.Protected[k] = v
